@@ -990,10 +990,9 @@ func (env *SpecEnv) call(x *CExpr) (SVal, error) {
 		if a.Sort != "Str" || b.Sort != "Str" {
 			return SVal{}, fmt.Errorf("streq: string arguments expected")
 		}
-		e.nfresh++
-		j := fmt.Sprintf("q!se%d", e.nfresh)
-		return SVal{T: fmt.Sprintf("(and (= (slen %s) (slen %s)) (forall ((%s Int)) (=> (and (<= 0 %s) (< %s (slen %s))) (= (sat %s %s) (sat %s %s)))))",
-			a.T, b.T, j, j, j, a.T, a.T, j, b.T, j), Typ: boolT, Sort: "Bool"}, nil
+		// extensional equality: provable from equal lengths and equal bytes at the (skolem)
+		// position strdiff(a,b); as a hypothesis it gives a == b (see the prelude axioms)
+		return SVal{T: app("strext", a.T, b.T), Typ: boolT, Sort: "Bool"}, nil
 	case "arrayof": // arrayof(p): the whole backing array of slice p (as a value)
 		a, err := argv(0)
 		if err != nil {
